@@ -11,6 +11,7 @@ probes; and a SEARCH (not a proof) over real thread schedules.
 """
 from __future__ import annotations
 
+import collections
 import copy
 import functools
 import hashlib
@@ -28,6 +29,8 @@ from btclib.bip32 import BIP32KeyOrigin, derive, rootxprv_from_seed, xpub_from_x
 from btclib.curves import CURVES, secp256k1
 from btclib.curves import curve as curve_mod
 from btclib.curves import curve_group as cg
+from btclib.curves import sec_point as sec_point_mod
+from btclib.ecc import dh as dh_mod
 from btclib.curves.curve import Curve, PreparedPoint, double_mult_var, mult, multi_mult_var
 from btclib.ecc import dsa, musig2, pedersen, ssa
 from btclib.mnemonic import bip39
@@ -56,12 +59,15 @@ TRUSTED = [
     "the session values (b, e, a, g, gacc, R parity), individual_pub_key and the wallet's address at a position are "
     "INPUTS of the lifecycle model, taken from the real code (they are C16/C03/C14's to model)",
     "signatures returned by Signer objects are checked by the harness (equal to the free function, verify), not modelled",
-    "CPython: the GIL, functools.lru_cache's C implementation, dict insertion order",
+    "CPython: the GIL, functools.lru_cache's C implementation, dict insertion order; sys.monitoring PY_START (the spy that decides "
+    "which backend arm answered a call: any function of the btclib_secp256k1 package started during it)",
 ]
 ASSUMPTIONS = [
     "key-soundness of lru_cache keys (tuple / Curve.__eq__ / __hash__) is a hypothesis of memo_transparent; "
     "probed by the cache.key_sound oracle on equal-key pairs",
-    "both backend arms compute the same function (C04) is a hypothesis of backend_history_independent",
+    "both backend arms compute the same function (C04) is a hypothesis of the ..._given_arms_equal theorems; which ARM answers "
+    "is compared (bindings package entered or not during the call, seen by a sys.monitoring spy), what it answers is probed by "
+    "the backend.captured_objects oracle",
     "thread interleavings inside CPython are searched (8 threads, switch interval 1e-6 s), not proved",
 ]
 
@@ -699,94 +705,246 @@ def _memo_run(maxsize, ops):
     return out
 
 
-# =============================================================================== backend flag, construction-time capture
+# =============================================================================== backend flag; objects holding a bindings object
 _R1 = CURVES["secp256r1"]
-_BASE = mult(5)
+_BASE = mult(_Q)                       # the chain's base is _Q*G, so the tweak N - _Q lands on infinity
 _BASE_R1 = mult(5, ec=_R1)
+_INF_PT = secp256k1.add_var(_BASE, secp256k1.negate(_BASE))   # infinity, as btclib spells it
+try:
+    import btclib_secp256k1 as _bindings_pkg
+    _BINDINGS_ROOT = os.path.dirname(_bindings_pkg.__file__) + os.sep
+except ImportError:  # pragma: no cover
+    _BINDINGS_ROOT = None
+_SERVES_CODE = curve_mod._libsecp256k1_serves.__code__  # noqa: SLF001
+_ENTRY = collections.Counter()      # bindings entry points seen by the spy, over the whole run (evidence)
+_SITES = collections.Counter()      # callers of _libsecp256k1_serves seen during spied free calls (evidence)
 
 
-def _build_obj(k, served):
-    """the k-th object of a history: dsa.Signer, ssa.Signer, _TweakChain in turn, for a served / unserved (ec, hf)."""
-    kind = ("dsa", "ssa", "chain")[k % 3]
+class _Spy:
+    """Which arm answered a call: every entry into the bindings PACKAGE while the block runs is recorded.
+
+    `sys.monitoring` PY_START, filtered on the code object's file: the bindings are pure-Python wrappers over cffi,
+    so whatever name a btclib module imported them under (`libsecp256k1_ssa.sign_custom`, `libsecp256k1_pubkey_tweak_add`,
+    a method of a held `ssa.Signer` / `PubkeyTweakChain`, …) the call starts a function of that package.  Nothing of
+    btclib is patched, so there is nothing to restore but the tool id.  Code that is not the bindings' switches its own
+    event off on first sight (DISABLE), so the arithmetic of the Python arm is not slowed.
+    Also records who asked `_libsecp256k1_serves` (the dispatch sites reached)."""
+
+    TOOL = 4
+
+    def __enter__(self):
+        self.hits, self.sites = [], []
+        mon = sys.monitoring
+        mon.use_tool_id(self.TOOL, "c20-bindings-spy")
+
+        def on_start(code, _offset):
+            if _BINDINGS_ROOT is not None and code.co_filename.startswith(_BINDINGS_ROOT):
+                self.hits.append(os.path.basename(code.co_filename)[:-3] + "." + code.co_qualname)
+                return None
+            if code is _SERVES_CODE:
+                f = sys._getframe(2)  # noqa: SLF001 - the caller of the predicate: a dispatch site
+                self.sites.append(os.path.basename(f.f_code.co_filename)[:-3] + "." + f.f_code.co_qualname)
+                return None
+            return mon.DISABLE
+
+        mon.register_callback(self.TOOL, mon.events.PY_START, on_start)
+        mon.set_events(self.TOOL, mon.events.PY_START)
+        return self
+
+    def __exit__(self, *a):
+        mon = sys.monitoring
+        mon.set_events(self.TOOL, 0)
+        mon.register_callback(self.TOOL, mon.events.PY_START, None)
+        mon.free_tool_id(self.TOOL)
+        # the entry points proper: public names of the package (helpers they call in turn are not listed)
+        for h in set(self.hits):
+            if not h.split(".")[-1].startswith("_") and not h.startswith("_"):
+                _ENTRY[h] += 1
+        for s_ in set(self.sites):
+            _SITES[s_] += 1
+
+    @property
+    def arm(self):
+        return "C" if self.hits else "P"
+
+
+KINDS = {"d": "dsa", "s": "ssa", "c": "chain"}
+
+
+def _build_obj(kind, cls):
+    """an object of `kind` for (ec, hf) of class `cls`: "1" served (secp256k1, sha256); "2" not served itself but the
+    free path it falls back on has served sites (secp256k1 with sha1; a chain on infinity, whose `_tweak_add_var`
+    multiplies the generator); "0" served nowhere (secp256r1)."""
     if kind == "dsa":
-        return kind, served, dsa.Signer(_Q) if served else dsa.Signer(_Q, secp256k1, hashlib.sha1)
+        return {"1": lambda: dsa.Signer(_Q), "2": lambda: dsa.Signer(_Q, secp256k1, hashlib.sha1),
+                "0": lambda: dsa.Signer(_Q % _R1.n, _R1)}[cls]()
     if kind == "ssa":
-        return kind, served, ssa.Signer(_Q) if served else ssa.Signer(_Q, _R1)
-    return kind, served, curve_mod._TweakChain(_BASE) if served else curve_mod._TweakChain(_BASE_R1, _R1)  # noqa: SLF001
+        return {"1": lambda: ssa.Signer(_Q), "2": lambda: ssa.Signer(_Q, secp256k1, hashlib.sha1),
+                "0": lambda: ssa.Signer(_Q % _R1.n, _R1)}[cls]()
+    return {"1": lambda: curve_mod._TweakChain(_BASE), "2": lambda: curve_mod._TweakChain(_INF_PT),  # noqa: SLF001
+            "0": lambda: curve_mod._TweakChain(_BASE_R1, _R1)}[cls]()  # noqa: SLF001
 
 
-def _obj_arm(kind, o):
-    held = {"dsa": lambda: o._pub_key_sec, "ssa": lambda: o._signer, "chain": lambda: o._chain}[kind]()  # noqa: SLF001
-    return "C" if held is not None else "P"
+def _obj_holds(kind, o) -> bool:
+    return {"dsa": lambda: o._pub_key_sec, "ssa": lambda: o._signer, "chain": lambda: o._chain}[kind]() is not None  # noqa: SLF001
 
 
-def _obj_answer(kind, served, o, t=77):
+def _obj_use(kind, cls, o, drop=False):
+    """one use of the object (a thunk, so that only the use itself is spied on).  `drop`: the use that makes a chain let
+    go of its bindings object -- the tweak that lands on infinity."""
     if kind == "dsa":
-        return o.sign_(_MSG if served else _MSG[:20])
+        return lambda: o.sign_(_MSG[:o._hf_len])  # noqa: SLF001
     if kind == "ssa":
-        return o.sign_(_MSG, _AUX)
-    return o.point(t)
+        return lambda: o.sign_(_MSG, _AUX[:o._hf_len])  # noqa: SLF001
+    if drop and cls == "1":
+        return lambda: o.point(N - _Q)
+    if drop and cls == "0":
+        return lambda: o.point(_R1.n - 5)
+    return lambda: o.point(77)
 
 
-def _free_answer(kind, served, t=77):
+def _free_use(kind, cls, drop=False):
+    """the free function the object's use stands for."""
+    ec = _R1 if cls == "0" else secp256k1
+    hf = hashlib.sha1 if cls == "2" else hashlib.sha256
+    hl = hf().digest_size
     if kind == "dsa":
-        return (dsa.sign_(_MSG, _Q) if served else dsa.sign_(_MSG[:20], _Q, hf=hashlib.sha1)).serialize()
+        return lambda: dsa.sign_(_MSG[:hl], _Q % ec.n, ec=ec, hf=hf).serialize()
     if kind == "ssa":
-        return (ssa.sign_(_MSG, _Q, _AUX) if served else ssa.sign_(_MSG, _Q, _AUX, _R1)).serialize()
-    return curve_mod._tweak_add_var(_BASE, t, secp256k1) if served else curve_mod._tweak_add_var(_BASE_R1, t, _R1)  # noqa: SLF001
+        return lambda: ssa.sign_(_MSG, _Q % ec.n, _AUX[:hl], ec, hf).serialize()
+    base = {"1": _BASE, "2": _INF_PT, "0": _BASE_R1}[cls]
+    t = (N - _Q if cls == "1" else _R1.n - 5 if cls == "0" else 77) if drop else 77
+    return lambda: curve_mod._tweak_add_var(base, t, ec)  # noqa: SLF001
 
 
-def _backend_run(flag0, ops, answers=None):
-    """ops on the real flag and real objects; `answers` (a list) collects (object answer, fresh, free) per use."""
+# free dispatching functions for the `backendfree` stream: name -> (class -> thunk); arguments are prepared OUTSIDE the spy
+@functools.lru_cache(maxsize=None)
+def _free_fn(fn, cls):
+    ec = _R1 if cls == "0" else secp256k1
+    hf = hashlib.sha1 if cls == "2" else hashlib.sha256
+    hl = hf().digest_size
+    q = _Q % ec.n
+    with _flag(False):   # the arguments come from the Python arithmetic, whatever the history's flag says
+        A, B, C = mult(5, ec=ec), mult(7, ec=ec), mult(11, ec=ec)
+        Qp = mult(q, ec=ec)
+        if fn in ("dsa.verify", "dsa.recover"):
+            dsig = dsa.sign_(_MSG[:hl], q, ec=ec, hf=hf)
+        if fn == "ssa.verify":
+            ssig = ssa.sign_(_MSG, q, _AUX[:hl], ec, hf)
+    table = {
+        "mult": lambda: mult(q, ec.G, ec),
+        "double_mult": lambda: double_mult_var(3, A, 5, B, ec),
+        "multi_mult": lambda: multi_mult_var([3, 5, 7], [A, B, C], ec),
+        "tweak_add": lambda: curve_mod._tweak_add_var(A, 77, ec),  # noqa: SLF001
+        "dsa.sign": lambda: dsa.sign_(_MSG[:hl], q, ec=ec, hf=hf),
+        "dsa.sign_recoverable": lambda: dsa.sign_recoverable_(_MSG[:hl], q, ec=ec, hf=hf),
+        "ssa.sign": lambda: ssa.sign_(_MSG, q, _AUX[:hl], ec, hf),
+        "dsa.verify": lambda: dsa.assert_as_valid_(_MSG[:hl], Qp, dsig, hf),
+        "dsa.recover": lambda: dsa.recover_pub_keys_(_MSG[:hl], dsig, hf),
+        "ssa.verify": lambda: ssa.assert_as_valid_(_MSG, Qp[0], ssig, hf),
+        "sum": lambda: curve_mod._sum_var([A, B, C], ec),  # noqa: SLF001
+        "sec_from_prv": lambda: sec_point_mod.bytes_from_prv_key_int(q, ec),
+        "mult_sec": lambda: sec_point_mod._mult_sec_var(sec_point_mod.bytes_from_point(A, ec), 9, ec),  # noqa: SLF001
+        "dh": lambda: dh_mod.diffie_hellman(q, A, 32, None, ec, hf),
+    }
+    return table[fn]
+
+
+FREE_FNS = ["mult", "double_mult", "multi_mult", "tweak_add", "dsa.sign", "dsa.sign_recoverable", "ssa.sign",
+            "dsa.verify", "dsa.recover", "ssa.verify", "sum", "sec_from_prv", "mult_sec", "dh"]
+
+
+def _set_op(op):
+    if op == "T1":
+        set_serving(serving=True)
+    elif op == "T0":
+        curve_mod._bindings_installed = False  # noqa: SLF001 - as on a machine without the bindings
+        try:
+            set_serving(serving=True)
+        finally:
+            curve_mod._bindings_installed = True  # noqa: SLF001
+    else:
+        set_serving(serving=False)
+
+
+def _backend_run(flag0, kinds, ops, answers=None):
+    """ops on the real flag and real objects.  A use answers "C" when the bindings package was entered during it and "P"
+    when it was not (`_Spy`), whatever the object's fields say; the state shown after each op is the flag and, per
+    object, whether it holds a bindings object.  The k-th object built is of class kinds[k mod len].
+    `answers` (a list) collects (object answer, fresh object's, free function's) per use."""
     out, objs = [], []
     with _flag(None):
         set_serving(serving=flag0)
         for op in ops:
             try:
-                if op == "T1":
-                    set_serving(serving=True)
-                    r = "none"
-                elif op == "T0":
-                    curve_mod._bindings_installed = False  # noqa: SLF001 - as on a machine without the bindings
-                    try:
-                        set_serving(serving=True)
-                    finally:
-                        curve_mod._bindings_installed = True  # noqa: SLF001
-                    r = "none"
-                elif op == "F":
-                    set_serving(serving=False)
+                if op in ("T1", "T0", "F"):
+                    _set_op(op)
                     r = "none"
                 elif op[0] == "B":
-                    objs.append(_build_obj(len(objs), op[1] == "1"))
+                    kind = KINDS[kinds[len(objs) % len(kinds)]]
+                    objs.append((kind, op[1], _build_obj(kind, op[1])))
                     r = "none"
-                elif op[0] == "U":
+                elif op[0] in "UD":
                     i = int(op[1:])
                     if i >= len(objs):
                         r = "err:foreign"
                     else:
-                        kind, served, o = objs[i]
-                        r = _obj_arm(kind, o)
+                        kind, cls, o = objs[i]
+                        drop = op[0] == "D"
+                        if drop and kind != "chain":
+                            raise common.HarnessError(f"generator: {op} on a {kind} object (only a chain lets go)")
+                        with _Spy() as spy:
+                            got = _obj_use(kind, cls, o, drop)()
+                        r = spy.arm
                         if answers is not None:
-                            fresh = _build_obj(i, served)
-                            answers.append((op, kind, _obj_answer(kind, served, o), _obj_answer(kind, served, fresh[2]),
-                                            _free_answer(kind, served), r, _obj_arm(kind, fresh[2])))
-                elif op in ("C1", "C0"):
-                    r = "C" if curve_mod._libsecp256k1_serves(secp256k1, hashlib.sha256 if op == "C1" else hashlib.sha1) else "P"  # noqa: SLF001
+                            fresh = _build_obj(kind, cls)
+                            with _Spy() as spy2:
+                                fa = _obj_use(kind, cls, fresh, drop)()
+                            answers.append((op, kind, got, fa, _free_use(kind, cls, drop)(), r, spy2.arm))
+                elif op in ("C1", "C2", "C0"):
+                    with _Spy() as spy:
+                        _free_use(KINDS[kinds[0]], op[1])()
+                    r = spy.arm
                 else:
                     raise common.HarnessError("backend op " + op)
             except common.HarnessError:
                 raise
             except Exception as e:  # noqa: BLE001
                 r = "err:" + _cls(e)
-            out.append(f"{r}@f{int(is_serving())}o{''.join('1' if _obj_arm(k, o) == 'C' else '0' for k, _, o in objs)}")
+            out.append(f"{r}@f{int(is_serving())}o{''.join(str(int(_obj_holds(k, o))) for k, _, o in objs)}")
+    return out
+
+
+def _backendfree_run(flag0, fn, ops):
+    """`Backend.run` against a free dispatching function of btclib: which arm answers each call, by the spy."""
+    out = []
+    with _flag(None):
+        set_serving(serving=flag0)
+        for op in ops:
+            try:
+                if op in ("T1", "T0", "F"):
+                    _set_op(op)
+                    r = "none"
+                elif op in ("C1", "C2", "C0"):
+                    thunk = _free_fn(fn, op[1])
+                    with _Spy() as spy:
+                        thunk()
+                    r = spy.arm
+                else:
+                    raise common.HarnessError("backendfree op " + op)
+            except common.HarnessError:
+                raise
+            except Exception as e:  # noqa: BLE001
+                r = "err:" + _cls(e)
+            out.append(r)
     return out
 
 
 def _o_captured_objects(w):
     """objects built under one flag value and used after flips answer, byte for byte, what an object built at that
-    moment answers and what the free function answers."""
+    moment answers and what the free function answers -- whichever arm each of the three took."""
     answers: list = []
-    _backend_run(w["flag"], w["ops"], answers)
+    _backend_run(w["flag"], w.get("kinds", "dsc"), w["ops"], answers)
     crossed = 0
     for op, kind, got, fresh, free, arm, fresh_arm in answers:
         if not (got == fresh == free):
@@ -794,6 +952,29 @@ def _o_captured_objects(w):
                            f"{str(got)[:40]}, a fresh object {str(fresh)[:40]}, the free function {str(free)[:40]}")
         crossed += arm != fresh_arm
     return True, f"{len(answers)} uses, {crossed} on the arm a fresh object would not take"
+
+
+def _dispatch_sites():
+    """every function of btclib whose body asks `_libsecp256k1_serves` (read off the source by AST)."""
+    import ast  # noqa: PLC0415
+    import pathlib  # noqa: PLC0415
+    root = pathlib.Path(curve_mod.__file__).resolve().parent.parent
+    found = set()
+    for f in sorted(root.rglob("*.py")):
+        stack: list[str] = []
+
+        def walk(node):
+            named = isinstance(node, (ast.FunctionDef, ast.AsyncFunctionDef, ast.ClassDef))
+            if named:
+                stack.append(node.name)
+            if isinstance(node, ast.Call) and getattr(node.func, "id", getattr(node.func, "attr", None)) == "_libsecp256k1_serves":
+                found.add(f.stem + "." + ".".join(stack))
+            for c in ast.iter_child_nodes(node):
+                walk(c)
+            if named:
+                stack.pop()
+        walk(ast.parse(f.read_text()))
+    return found
 
 
 # =============================================================================== impl (replay entry)
@@ -813,7 +994,9 @@ def impl(line: str) -> str:
     if t[0] == "memo":
         return _fmt(_memo_run(int(t[1]), ops))
     if t[0] == "backend":
-        return _fmt(_backend_run(t[1] == "1", ops))
+        return _fmt(_backend_run(t[1] == "1", t[2], ops))
+    if t[0] == "backendfree":
+        return _fmt(_backendfree_run(t[1] == "1", t[2], ops))
     return "bad-op"
 
 
@@ -1742,32 +1925,57 @@ def _run(ctx, rng, thorough):
     ctx.correspond("memo.lru", EXE, cases)
 
     _lap(ctx, "memo")
-    # ---------------------------------------------------------------- backend flag and construction-time capture
+    # ---------------------------------------------------------------- backend flag; objects holding a bindings object
     if INSTALLED:
-        balpha = ["T1", "F", "B1", "U0", "U1", "C1"]
-        d = 6 if thorough else 4
+        d = 5 if thorough else 4
+        deep = "dsc"[ctx.seed % 3]        # quick: one class at full depth (by seed), the other two one shorter
+        for kinds in "dsc":
+            balpha = ["T1", "F", "B1", "B2", "U0", "U1", "C1"] + (["D0"] if kinds == "c" else [])
+            dk = d if (thorough or kinds == deep) else d - 1
+            cases = []
+            for flag0 in (True, False):
+                for ops in _all_histories(balpha, dk):
+                    cases.append((f"backend {int(flag0)} {kinds} {';'.join(ops)}", _fmt(_backend_run(flag0, kinds, ops))))
+            ctx.correspond(f"backend.all.{KINDS[kinds]}", EXE, cases, nontrivial=lambda ln, o: "C@" in o or "P@" in o)
+            ctx.exhaustive_streams.append(f"backend.all.{KINDS[kinds]}: every history of length {dk} over {balpha} (set True, set "
+                                          "False, build an object for a served (ec, hf) / for one served only on its free path, use "
+                                          "object 0 / 1, free call, and for a chain the tweak that makes it let go); from both flag "
+                                          "values; C/P = the bindings package was / was not entered during the call")
+        ball = ["T1", "T0", "F", "B1", "B0", "B2", "U0", "U1", "U2", "U3", "D2", "D5", "C1", "C0", "C2"]
         cases = []
-        for flag0 in (True, False):
-            for ops in _all_histories(balpha, d):
-                cases.append((f"backend {int(flag0)} {';'.join(ops)}", _fmt(_backend_run(flag0, ops))))
-        ctx.correspond("backend.all", EXE, cases, nontrivial=lambda ln, o: "@" in o)
-        ctx.exhaustive_streams.append(f"backend.all: every history of length {d} over set True, set False, build a served "
-                                      "object, use object 0, use object 1, free dispatching call; from both flag values")
-        ball = ["T1", "T0", "F", "B1", "B0", "U0", "U1", "U2", "U3", "C1", "C0"]
-        cases = []
-        crossed = 0
         for _ in range(ctx.n(60, 1000)):
             ops = [rng.choice(ball) for _ in range(rng.randrange(2, 14))]
             flag0 = rng.random() < 0.5
-            cases.append((f"backend {int(flag0)} {';'.join(ops)}", _fmt(_backend_run(flag0, ops))))
+            cases.append((f"backend {int(flag0)} dsc {';'.join(ops)}", _fmt(_backend_run(flag0, "dsc", ops))))
             # histories made to cross: build under one value, flip, use
-            ops2 = [rng.choice(["B1", "B1", "B0"]) for _ in range(3)] + [rng.choice(["F", "T1"])] + \
-                   [rng.choice(["U0", "U1", "U2", "F", "T1", "B1"]) for _ in range(rng.randrange(2, 8))]
-            ctx.check("backend.captured_objects", {"flag": flag0, "ops": ops2})
-            ctx.check("backend.captured_objects", {"flag": flag0, "ops": ops})
-        ctx.correspond("backend.random", EXE, cases, nontrivial=lambda ln, o: "@" in o)
+            ops2 = [rng.choice(["B1", "B1", "B0", "B2"]) for _ in range(3)] + [rng.choice(["F", "T1"])] + \
+                   [rng.choice(["U0", "U1", "U2", "D2", "F", "T1", "B1"]) for _ in range(rng.randrange(2, 8))]
+            cases.append((f"backend {int(flag0)} dsc {';'.join(ops2)}", _fmt(_backend_run(flag0, "dsc", ops2))))
+            ctx.check("backend.captured_objects", {"flag": flag0, "kinds": "dsc", "ops": ops2})
+            ctx.check("backend.captured_objects", {"flag": flag0, "kinds": "dsc", "ops": ops})
+        ctx.correspond("backend.random", EXE, cases, nontrivial=lambda ln, o: "C@" in o or "P@" in o)
+        # Backend.run itself against the free dispatching functions
+        falpha = ["T1", "T0", "F", "C1", "C2", "C0"]
+        fd = 4 if thorough else 3
+        for fn in FREE_FNS:
+            cases = []
+            for flag0 in (True, False):
+                for ops in _all_histories(falpha, fd):
+                    cases.append((f"backendfree {int(flag0)} {fn} {';'.join(ops)}", _fmt(_backendfree_run(flag0, fn, ops))))
+            ctx.correspond(f"backendfree.all.{fn}", EXE, cases, nontrivial=lambda ln, o: "C" in o[3:] or "P" in o[3:])
+        ctx.exhaustive_streams.append(f"backendfree.all.<fn>: for each of {FREE_FNS}, every history of length {fd} over {falpha} "
+                                      "(C1: secp256k1+sha256, C2: secp256k1+sha1, C0: secp256r1), from both flag values")
+        for name, k in sorted(_ENTRY.items()):
+            ctx.count("backend.bindings_entry_points_seen", name, k)
+        sites = _dispatch_sites()
+        reached = {s_ for s_ in _SITES}
+        for s_ in sorted(sites):
+            ctx.count("backend.dispatch_sites", s_, _SITES.get(s_, 0))
+        ctx.note(f"dispatch sites (functions asking _libsecp256k1_serves, by AST): {len(sites)}; reached during the spied calls of the "
+                 f"backend streams: {len(sites & reached)}; NOT reached by them (their dispatch is C04's streams' business): "
+                 f"{sorted(sites - reached)}")
     else:
-        ctx.note("bindings not installed: the backend / captured-object streams have nothing to flip")
+        ctx.note("bindings not installed: the backend streams have nothing to flip")
     _lap(ctx, "backend")
 
     # ---------------------------------------------------------------- cache independence (real code alone)
